@@ -31,6 +31,21 @@ class Job:
         self.tiers = tiers
 
 
+class FuzzJob:
+    """Coverage-guided byte-string workload: a libFuzzer target (harness/fuzz/<target>.cpp) linked against the clang ASan build.
+    Bounded by -runs per process, never by seconds (a generous -max_total_time only guards against stalls and is reported)."""
+    fuzz = True
+
+    def __init__(self, target, quick=200000, thorough=5000000, procs=(4, 12), max_len=4096, tag=None, dict_file=None, tiers=('quick', 'thorough')):
+        self.target, self.max_len, self.dict_file = target, max_len, dict_file
+        self.runs = {'quick': quick, 'thorough': thorough}
+        self.procs = {'quick': procs[0], 'thorough': procs[1]}
+        self.tag = tag or ('fuzz.' + target)
+        self.tiers = tiers
+        self.variant, self.harness, self.mode = 'fuzz', 'fuzz/' + target, 'libfuzzer'
+        self.floor = None
+
+
 class Slots:
     def __init__(self, n):
         self.n, self.cv = n, threading.Condition()
@@ -222,6 +237,88 @@ def _run_task(job, tier, seed, shard, nshards, binpath, outdir, slots):
     return cmd, p.returncode, p.stdout.decode('utf-8', 'replace'), time.time() - t0
 
 
+def _run_fuzz_task(job, tier, seed, k, binpath, outdir, slots):
+    os.makedirs(outdir, exist_ok=True)
+    corpus = os.path.join(outdir, 'corpus')
+    os.makedirs(corpus, exist_ok=True)
+    seedc = os.path.join(ROOT, 'corpus', job.target)
+    if os.path.isdir(seedc):
+        for f in os.listdir(seedc):
+            shutil.copy(os.path.join(seedc, f), os.path.join(corpus, f))
+    art = os.path.join(outdir, 'artifacts')
+    os.makedirs(art, exist_ok=True)
+    cmd = [binpath, corpus, '-runs=%d' % job.runs[tier], '-seed=%d' % (seed * 1000 + k + 1), '-max_len=%d' % job.max_len, '-timeout=20', '-rss_limit_mb=3000',
+           '-artifact_prefix=' + art + '/', '-print_final_stats=1', '-max_total_time=3000', '-verbosity=1', '-close_fd_mask=0']
+    if job.dict_file:
+        cmd.append('-dict=' + os.path.join(ROOT, job.dict_file))
+    env = variant_env('fuzz')
+    env['ASAN_OPTIONS'] = 'abort_on_error=1:detect_leaks=1:allocator_may_return_null=1:max_allocation_size_mb=2048:handle_abort=1:symbolize=1'
+    env['ASAN_SYMBOLIZER_PATH'] = shutil.which('llvm-symbolizer-14') or shutil.which('llvm-symbolizer') or ''
+    slots.acquire(1)
+    t0 = time.time()
+    try:
+        p = subprocess.run(cmd, stdout=subprocess.PIPE, stderr=subprocess.STDOUT, env=env, cwd=outdir)
+    finally:
+        slots.release(1)
+    return cmd, p.returncode, p.stdout.decode('utf-8', 'replace'), time.time() - t0, corpus, art
+
+
+def _fuzz_collect(prop, job, tier, seed, k, fut_result, res, js):
+    cmd, rc, out, wall, corpus, art = fut_result
+    m = re.search(r'stat::number_of_executed_units:\s*(\d+)', out)
+    execs = int(m.group(1)) if m else 0
+    covs = re.findall(r'cov: (\d+) ft: (\d+) corp: (\d+)', out)
+    cov, ft, corp = (int(x) for x in covs[-1]) if covs else (0, 0, 0)
+    js['done'] += execs
+    js['evaluations'] += execs
+    js['wall_s'] = max(js['wall_s'], wall)
+    res.evaluations += execs
+    res.cases_done += execs
+    for kk, v in (('executions', execs), ('corpus_entries', corp)):
+        res.counters['%s:%s' % (job.tag, kk)] = res.counters.get('%s:%s' % (job.tag, kk), 0) + v
+    for kk, v in (('coverage_edges_max', cov), ('coverage_features_max', ft)):
+        res.counters['%s:%s' % (job.tag, kk)] = max(res.counters.get('%s:%s' % (job.tag, kk), 0), v)
+    # distinct non-trivial = coverage-increasing inputs kept in the corpus (content hashes)
+    n = 0
+    for f in os.listdir(corpus):
+        try:
+            data = open(os.path.join(corpus, f), 'rb').read()
+        except Exception:
+            continue
+        res.hashes.add(int(hashlib.sha1(job.target.encode() + data).hexdigest()[:16], 16))
+        n += 1
+        if k == 0 and n <= 2 and len(res.samples) < 24 and len(data) > 3:
+            res.samples.append({'job': job.tag, 'case': repr(data[:200])})
+    if 'max_total_time' in out and 'DONE' in out and execs < job.runs[tier] * 0.5:
+        res.counters['%s:stopped_by_time_cap' % job.tag] = res.counters.get('%s:stopped_by_time_cap' % job.tag, 0) + 1
+    arts = sorted(os.listdir(art))
+    if rc != 0 or arts:
+        witness = ''
+        for a in arts[:1]:
+            try:
+                witness = repr(open(os.path.join(art, a), 'rb').read()[:600])
+            except Exception:
+                pass
+        text = out[-12000:]
+        mo = re.search(r'(VF-ORACLE: [^\n]+)', out)
+        if mo:
+            sigs = [('oracle', re.sub(r'[^A-Za-z0-9_.:-]+', '-', mo.group(1)[11:80]), mo.group(1))]
+        elif 'ERROR: libFuzzer: timeout' in out:
+            sigs = [('hang', 'timeout', 'input took longer than 20 s')]
+        else:
+            sigs = signatures('crash', text)
+        js['anomalies'] += 1
+        keepart = ''
+        if arts:
+            keep = os.path.join(ROOT, 'replays', prop)
+            os.makedirs(keep, exist_ok=True)
+            keepart = os.path.join(keep, 'fuzz_%s_%s' % (job.target, arts[0][:40]))
+            shutil.copy(os.path.join(art, arts[0]), keepart)
+        for det, sig, excerpt in sigs:
+            res.anoms.append(dict(property=prop, key='%s/%s/%s/%s' % (prop, job.tag, det, sig), detector=det, job=job.tag, variant='fuzz', harness='fuzz/' + job.target,
+                                  mode='libfuzzer', seed=seed, idx=0, desc='input %s' % witness, report=excerpt, how='exit %d' % rc, cmd=[cmd[0], keepart] if keepart else cmd, batch_from=None))
+
+
 def replay_cmd(an):
     return an['cmd']
 
@@ -230,7 +327,12 @@ def run_jobs(prop, tier, seed, jobs, scratch):
     """Build and run all jobs; returns Result."""
     res = Result()
     jobs = [j for j in jobs if tier in j.tiers]
+    fjobs = [j for j in jobs if getattr(j, 'fuzz', False)]
+    jobs = [j for j in jobs if not getattr(j, 'fuzz', False)]
     bins = build.build_many([(j.harness, j.variant) for j in jobs])
+    fbins = {}
+    for j in fjobs:
+        fbins[j.target] = build.fuzz_target(j.target)
     slots = Slots(NCPU)
     tasks = []
     with ThreadPoolExecutor(64) as ex:
@@ -239,7 +341,19 @@ def run_jobs(prop, tier, seed, jobs, scratch):
             for s in range(n):
                 outdir = os.path.join(scratch, '%02d_%s_%s_%d' % (ji, j.tag, j.variant, s))
                 tasks.append((j, s, n, outdir, ex.submit(_run_task, j, tier, seed, s, n, bins[(j.harness, j.variant)], outdir, slots)))
+        ftasks = []
+        for ji, j in enumerate(fjobs):
+            for k in range(j.procs[tier]):
+                outdir = os.path.join(scratch, 'fz%02d_%s_%d' % (ji, j.target, k))
+                ftasks.append((j, k, ex.submit(_run_fuzz_task, j, tier, seed, k, fbins[j.target], outdir, slots)))
         per_job = {}
+        for j, k, fut in ftasks:
+            js = per_job.setdefault(id(j), dict(tag=j.tag, variant='fuzz', mode='libfuzzer', harness='fuzz/' + j.target, planned=j.runs[tier] * j.procs[tier], done=0,
+                                                evaluations=0, nontrivial=0, anomalies=0, inconclusive=0, wall_s=0.0, shards=j.procs[tier], floor=0.5))
+            try:
+                _fuzz_collect(prop, j, tier, seed, k, fut.result(), res, js)
+            except Exception as e:
+                res.errors.append('fuzz job %s failed: %s' % (j.tag, e))
         for j, s, n, outdir, fut in tasks:
             cmd, rc, out, wall = fut.result()
             js = per_job.setdefault(id(j), dict(tag=j.tag, variant=j.variant, mode=j.mode, harness=j.harness, planned=j.cases[tier], done=0,
